@@ -60,7 +60,14 @@ def pad_chart(ch, rng, target_states):
         k += 1
         s = C.St('p%d' % k, 'state', ch.root)
         s.trans.append(C.Tr(s, [rng.choice(['e1', 'e2', 'zz'])], None, [rng.choice(ch.proper()).id], False, [('log', 'P%d' % k, ('var', 'x') if ch.data else None)]))
-        ch.root.children.append(s); ch.reindex()
+        # in front of the generated states in every other machine: nested finals, histories and parallels then have indices beyond the first byte
+        if target_states % 2 == 0 or k % 2: ch.root.children.insert(0, s)
+        else: ch.root.children.append(s)
+        ch.reindex()
+    if ch.root.initial_attr is None:
+        gen = [c for c in ch.root.states() if not (c.id.startswith('p') and c.id[1:].isdigit())]
+        if gen and ch.root.states()[0] is not gen[0] and not ch.root.initial_elem: ch.root.initial_attr = [gen[0].id]
+    ch.reindex()
     return ch
 
 
